@@ -39,7 +39,7 @@ def opSigners (op : Op) : List Addr := (stepInfo op true).signers
 
 /-- the signers the code actually looks at: when the first signer is a smart contract, only it -/
 def opEffectiveSigners (s : State) : Op → List Addr
-  | .write _ _ _ sg | .delete _ sg | .updvo _ _ sg | .migrate _ _ sg => effectiveSigners s sg
+  | .write _ _ _ _ sg | .delete _ sg | .updvo _ _ sg | .migrate _ _ sg => effectiveSigners s sg
   | .send frm _ _ => [frm]
   | .mwithdraw _ admin _ _ => [admin]
   | _ => []
@@ -50,7 +50,7 @@ effective signers. -/
 theorem exec_step {s s' : State} {op : Op} (hinv : Inv s) (h : exec s op = .ok s') :
     Inv s' ∧ GoodStep s (opKind op) (opEffectiveSigners s op) s' := by
   cases op with
-  | write id owners vo sg => obtain ⟨h1, h2, _⟩ := write_step hinv h; exact ⟨h1, h2⟩
+  | write id owners ru vo sg => obtain ⟨h1, h2, _⟩ := write_step hinv h; exact ⟨h1, h2⟩
   | delete id sg => obtain ⟨h1, h2, _⟩ := delete_step hinv h; exact ⟨h1, h2⟩
   | updvo ids vo sg => obtain ⟨h1, h2, _⟩ := updvo_step hinv h; exact ⟨h1, h2⟩
   | migrate ex pr sg => obtain ⟨h1, h2, _⟩ := migrate_step hinv h; exact ⟨h1, h2⟩
@@ -76,7 +76,7 @@ theorem exec_step_signers {s s' : State} {op : Op} (hinv : Inv s) (h : exec s op
   cases op with
   | send frm to ids => exact hg
   | mwithdraw mk ad to ids => exact hg
-  | write id owners vo sg => exact hg.mono (opEffectiveSigners_sub s _) (by simp [opKind, stepInfo])
+  | write id owners ru vo sg => exact hg.mono (opEffectiveSigners_sub s _) (by simp [opKind, stepInfo])
   | delete id sg => exact hg.mono (opEffectiveSigners_sub s _) (by simp [opKind, stepInfo])
   | updvo ids vo sg => exact hg.mono (opEffectiveSigners_sub s _) (by simp [opKind, stepInfo])
   | migrate ex pr sg => exact hg.mono (opEffectiveSigners_sub s _) (by simp [opKind, stepInfo])
@@ -167,10 +167,10 @@ theorem delete_burns {s s' : State} (hinv : Inv s) (id : ScopeId) (signers : Lis
 /-- tokens are created only by WriteScope and destroyed only by DeleteScope: every other
 operation keeps the supply of every scope denom -/
 theorem supply_changes_only_by_write_delete {s s' : State} (hinv : Inv s) (op : Op)
-    (h : exec s op = .ok s') (hw : ∀ id ow vo sg, op ≠ .write id ow vo sg) (hd : ∀ id sg, op ≠ .delete id sg)
+    (h : exec s op = .ok s') (hw : ∀ id ow ru vo sg, op ≠ .write id ow ru vo sg) (hd : ∀ id sg, op ≠ .delete id sg)
     (d : Denom) : supply s'.ledger d = supply s.ledger d := by
   cases op with
-  | write id owners vo sg => exact absurd rfl (hw _ _ _ _)
+  | write id owners ru vo sg => exact absurd rfl (hw _ _ _ _ _)
   | delete id sg => exact absurd rfl (hd _ _)
   | updvo ids vo sg => exact (updvo_step hinv h).2.2 d
   | migrate ex pr sg => exact (migrate_step hinv h).2.2 d
@@ -182,7 +182,8 @@ theorem supply_changes_only_by_write_delete {s s' : State} (hinv : Inv s) (op : 
 
 /-- a WriteScope without a value-owner field never touches any token -/
 theorem write_without_value_owner_keeps_tokens {s s' : State} (hinv : Inv s) (id : ScopeId)
-    (owners signers : List Addr) (h : exec s (.write id owners "" signers) = .ok s') :
+    (owners : List Party) (rollup : Bool) (signers : List Addr)
+    (h : exec s (.write id owners rollup "" signers) = .ok s') :
     s'.ledger = s.ledger :=
   (write_step hinv h).2.2 rfl
 
@@ -190,8 +191,8 @@ theorem write_without_value_owner_keeps_tokens {s s' : State} (hinv : Inv s) (id
 
 /-- WriteScope: the scope exists afterwards; with a value-owner field that address holds the
 token; no other scope's token moves. -/
-theorem write_sets_owner {s s' : State} (hinv : Inv s) (id : ScopeId) (owners : List Addr) (vo : Addr)
-    (signers : List Addr) (h : exec s (.write id owners vo signers) = .ok s') :
+theorem write_sets_owner {s s' : State} (hinv : Inv s) (id : ScopeId) (owners : List Party) (rollup : Bool)
+    (vo : Addr) (signers : List Addr) (h : exec s (.write id owners rollup vo signers) = .ok s') :
     hasScope s' id = true ∧ (vo ≠ "" → HolderIs s'.ledger id (some vo)) ∧
     (∀ d, d ≠ id → ∀ o, HolderIs s.ledger d o → HolderIs s'.ledger d o) :=
   write_effect hinv h
@@ -303,6 +304,45 @@ theorem no_consent_no_change {s s' : State} (hinv : Inv s) (op : Op) (mt : MsgTy
   · exact hnogrant g hg h1 h3 h2
   · rw [hnomarker] at hm; cases hm
 
+/-- **write_needs_value_owner_consent** — party validation is no substitute for the value
+owner's consent: a WriteScope that goes through — on a plain scope or on a `require_party_rollup`
+scope, whatever the scope's parties are and whichever of them sign, in particular when the value
+owner is itself an OPTIONAL party of the scope and all the required parties sign — leaves the
+token with the value owner `GetScopeValueOwner` reported unless that owner signs, has an authz
+grant for MsgWriteScope in force to a signer, or is a marker. -/
+theorem write_needs_value_owner_consent {s s' : State} (hinv : Inv s) (id : ScopeId) (owners : List Party)
+    (rollup : Bool) (vo : Addr) (signers : List Addr)
+    (h : exec s (.write id owners rollup vo signers) = .ok s')
+    (hd : Addr) (hvo : denomOwner s.ledger id = .ok (some hd))
+    (hnosig : hd ∉ signers)
+    (hnogrant : ∀ g ∈ s.grants, g.granter = hd → g.mt = .write → g.grantee ∉ signers)
+    (hnomarker : findMarker s hd = none) :
+    denomOwner s'.ledger id = .ok (some hd) := by
+  obtain ⟨o, ho, _, _⟩ := hinv id
+  have ho' := denomOwner_of_holderIs ho
+  rw [hvo] at ho'
+  injection ho' with ho'
+  subst ho'
+  exact denomOwner_of_holderIs
+    (no_consent_no_change hinv (.write id owners rollup vo signers) .write rfl h id hd ho hnosig hnogrant hnomarker)
+
+/-- the hypotheses are satisfiable with the value owner an optional party: `B` is an optional
+party and the value owner of a roll-up scope; `A` (the required party) rewrites the parties,
+naming `B` as value owner again; the write goes through and `B` keeps the token -/
+example : denomOwner
+    (run {} [.write "s1" [req "A", opt "B"] true "B" ["A"],
+             .write "s1" [req "A", opt "B", opt "C"] true "B" ["A"]]).ledger "s1" = .ok (some "B") := by
+  have hinv : Inv (run {} [.write "s1" [req "A", opt "B"] true "B" ["A"]]) := run_inv inv_init _
+  have hex : ∃ s', exec (run {} [.write "s1" [req "A", opt "B"] true "B" ["A"]])
+      (.write "s1" [req "A", opt "B", opt "C"] true "B" ["A"]) = .ok s' ∧
+      run {} [.write "s1" [req "A", opt "B"] true "B" ["A"],
+              .write "s1" [req "A", opt "B", opt "C"] true "B" ["A"]] = s' := ⟨_, rfl, rfl⟩
+  obtain ⟨s', h1, h2⟩ := hex
+  rw [h2]
+  have hg0 : (run {} [.write "s1" [req "A", opt "B"] true "B" ["A"]]).grants = [] := by decide
+  exact write_needs_value_owner_consent hinv "s1" _ _ _ _ h1 "B" rfl (by decide)
+    (by intro g hg; rw [hg0] at hg; simp at hg) (by decide)
+
 /-- a bank send moves a token only when its holder is the sender -/
 theorem send_only_by_holder {s s' : State} (hinv : Inv s) (frm to : Addr) (ids : List ScopeId)
     (h : exec s (.send frm to ids) = .ok s') (d : ScopeId) (hd : Addr)
@@ -320,7 +360,7 @@ theorem env_ops_move_nothing {s s' : State} (op : Op) (hk : opKind op = .env) (h
   | grant gr ge mt c => simp [exec] at h; subst h; exact ⟨rfl, rfl⟩
   | revoke gr ge mt => exact deleteGrant_eq h
   | access m a ps => exact setAccess_eq h
-  | write id owners vo sg => simp [opKind, stepInfo] at hk
+  | write id owners ru vo sg => simp [opKind, stepInfo] at hk
   | delete id sg => simp [opKind, stepInfo] at hk
   | updvo ids vo sg => simp [opKind, stepInfo] at hk
   | migrate ex pr sg => simp [opKind, stepInfo] at hk
@@ -334,7 +374,7 @@ message type) in force before; consent cannot be manufactured by the messages it
 theorem messages_never_create_grants {s s' : State} (hinv : Inv s) (op : Op) (hk : opKind op ≠ .env)
     (h : exec s op = .ok s') : GrantsSub s s' := by
   cases op with
-  | write id owners vo sg => exact write_grants hinv h
+  | write id owners ru vo sg => exact write_grants hinv h
   | delete id sg => exact delete_grants hinv h
   | updvo ids vo sg =>
     simp only [exec] at h
@@ -491,7 +531,7 @@ theorem step_ok {s : State} (hinv : Inv s) (op : Op) (ids : List ScopeId) :
           have hhold := holdersOf_of_holderIs hnone
           simp [deleteOne, stepInfo, observeScope, h1, h2, hhold, holderList]
         · simp [deleteOne, stepInfo, observeScope, hc]
-      | write _ _ _ _ => simp [deleteOne, stepInfo]
+      | write _ _ _ _ _ => simp [deleteOne, stepInfo]
       | updvo _ _ _ => simp [deleteOne, stepInfo]
       | migrate _ _ _ => simp [deleteOne, stepInfo]
       | send _ _ _ => simp [deleteOne, stepInfo]
@@ -520,40 +560,71 @@ private def holder (s : State) (d : Denom) : Option (Option Addr) :=
   | .error _ => none
 
 /-- the owner signs -/
-example : holder (run {} [.write "s1" ["A"] "C" ["A"], .updvo ["s1"] "D" ["C"]]) "s1" = some (some "D") := by decide
+example : holder (run {} [.write "s1" [req "A"] false "C" ["A"], .updvo ["s1"] "D" ["C"]]) "s1" = some (some "D") := by decide
 /-- a stranger signs: rejected, the owner keeps the token -/
-example : holder (run {} [.write "s1" ["A"] "C" ["A"], .updvo ["s1"] "D" ["B"]]) "s1" = some (some "C") := by decide
+example : holder (run {} [.write "s1" [req "A"] false "C" ["A"], .updvo ["s1"] "D" ["B"]]) "s1" = some (some "C") := by decide
 /-- the scope's owners cannot move the value owner's token either -/
-example : holder (run {} [.write "s1" ["A"] "C" ["A"], .write "s1" ["A"] "A" ["A"]]) "s1" = some (some "C") := by decide
+example : holder (run {} [.write "s1" [req "A"] false "C" ["A"], .write "s1" [req "A"] false "A" ["A"]]) "s1" = some (some "C") := by decide
 /-- an authz grant from the owner to the signer for this message type -/
-example : holder (run {} [.write "s1" ["A"] "C" ["A"], .grant "C" "B" .updvo 1, .updvo ["s1"] "D" ["B"]]) "s1"
+example : holder (run {} [.write "s1" [req "A"] false "C" ["A"], .grant "C" "B" .updvo 1, .updvo ["s1"] "D" ["B"]]) "s1"
     = some (some "D") := by decide
 /-- … is single use when it is a count-1 authorization -/
-example : holder (run {} [.write "s1" ["A"] "C" ["A"], .write "s2" ["A"] "C" ["A"], .grant "C" "B" .updvo 1,
+example : holder (run {} [.write "s1" [req "A"] false "C" ["A"], .write "s2" [req "A"] false "C" ["A"], .grant "C" "B" .updvo 1,
     .updvo ["s1"] "D" ["B"], .updvo ["s2"] "D" ["B"]]) "s2" = some (some "C") := by decide
 /-- … and does not carry over to another message type -/
-example : holder (run {} [.write "s1" ["A"] "C" ["A"], .grant "C" "B" .migrate 0, .updvo ["s1"] "D" ["B"]]) "s1"
+example : holder (run {} [.write "s1" [req "A"] false "C" ["A"], .grant "C" "B" .migrate 0, .updvo ["s1"] "D" ["B"]]) "s1"
     = some (some "C") := by decide
 /-- the owner's own bank transfer -/
-example : holder (run {} [.write "s1" ["A"] "C" ["A"], .send "C" "D" ["s1"]]) "s1" = some (some "D") := by decide
+example : holder (run {} [.write "s1" [req "A"] false "C" ["A"], .send "C" "D" ["s1"]]) "s1" = some (some "D") := by decide
 /-- into a restricted marker only with deposit, out of a marker only with withdraw -/
-example : holder (run {} [.write "s1" ["A"] "C" ["A"], .send "C" "MR" ["s1"]]) "s1" = some (some "C") := by decide
-example : holder (run {} [.write "s1" ["A"] "C" ["A"], .access "MR" "C" [.deposit], .send "C" "MR" ["s1"]]) "s1"
+example : holder (run {} [.write "s1" [req "A"] false "C" ["A"], .send "C" "MR" ["s1"]]) "s1" = some (some "C") := by decide
+example : holder (run {} [.write "s1" [req "A"] false "C" ["A"], .access "MR" "C" [.deposit], .send "C" "MR" ["s1"]]) "s1"
     = some (some "MR") := by decide
-example : holder (run {} [.write "s1" ["A"] "C" ["A"], .access "MR" "C" [.deposit], .send "C" "MR" ["s1"],
+example : holder (run {} [.write "s1" [req "A"] false "C" ["A"], .access "MR" "C" [.deposit], .send "C" "MR" ["s1"],
     .migrate "MR" "E" ["C"]]) "s1" = some (some "MR") := by decide
-example : holder (run {} [.write "s1" ["A"] "C" ["A"], .access "MR" "C" [.deposit], .send "C" "MR" ["s1"],
+example : holder (run {} [.write "s1" [req "A"] false "C" ["A"], .access "MR" "C" [.deposit], .send "C" "MR" ["s1"],
     .access "MR" "B" [.withdraw], .migrate "MR" "E" ["B"]]) "s1" = some (some "E") := by decide
 /-- the marker module's own MsgWithdraw is a fifth message that moves a marker-held token: same rule -/
-example : holder (run {} [.write "s1" ["A"] "C" ["A"], .access "MR" "C" [.deposit], .send "C" "MR" ["s1"],
+example : holder (run {} [.write "s1" [req "A"] false "C" ["A"], .access "MR" "C" [.deposit], .send "C" "MR" ["s1"],
     .mwithdraw "MR" "C" "E" ["s1"]]) "s1" = some (some "MR") := by decide
-example : holder (run {} [.write "s1" ["A"] "C" ["A"], .access "MR" "C" [.deposit, .withdraw], .send "C" "MR" ["s1"],
+example : holder (run {} [.write "s1" [req "A"] false "C" ["A"], .access "MR" "C" [.deposit, .withdraw], .send "C" "MR" ["s1"],
     .mwithdraw "MR" "C" "E" ["s1"]]) "s1" = some (some "E") := by decide
+/-! `require_party_rollup` scopes with optional parties; the value owner may be one of them -/
+
+/-- the required party alone cannot move the token of a value owner who is an optional party,
+neither together with another change … -/
+example : holder (run {} [.write "s1" [req "A", opt "B"] true "B" ["A"],
+    .write "s1" [req "A", opt "B", opt "C"] true "A" ["A"]]) "s1" = some (some "B") := by decide
+/-- … nor as the only change -/
+example : holder (run {} [.write "s1" [req "A", opt "B"] true "B" ["A"],
+    .write "s1" [req "A", opt "B"] true "A" ["A"]]) "s1" = some (some "B") := by decide
+/-- with the optional party's signature it moves -/
+example : holder (run {} [.write "s1" [req "A", opt "B"] true "B" ["A"],
+    .write "s1" [req "A", opt "B", opt "C"] true "A" ["A", "B"]]) "s1" = some (some "A") := by decide
+/-- … or with its authz grant to the signer (a count-1 grant serves both the party check and the
+value-owner check of one message through the authz cache) -/
+example : holder (run {} [.write "s1" [req "A", opt "B"] true "B" ["A"], .grant "B" "A" .write 1,
+    .write "s1" [req "A", opt "B", opt "C"] true "A" ["A"]]) "s1" = some (some "A") := by decide
+/-- the value owner alone changes only the value owner; a required party must sign anything else -/
+example : holder (run {} [.write "s1" [req "A", opt "B"] true "B" ["A"],
+    .write "s1" [req "A", opt "B"] true "D" ["B"]]) "s1" = some (some "D") := by decide
+example : (run {} [.write "s1" [req "A", opt "B"] true "B" ["A"],
+    .write "s1" [req "A", opt "C"] true "D" ["B"]]).scopes.map (·.owners) = [[req "A", opt "B"]] := by decide
+/-- a scope whose parties are all optional still needs one of them for the role OWNER -/
+example : (applyOp (run {} [.write "s1" [opt "A", opt "B"] true "C" ["A"]])
+    (.write "s1" [opt "A"] true "" ["D"])).2 = "err:roles" := by decide
+example : (run {} [.write "s1" [opt "A", opt "B"] true "C" ["A"], .grant "B" "D" .write 0,
+    .write "s1" [opt "A"] true "" ["D"]]).scopes.map (·.owners) = [[opt "A"]] := by decide
+/-- deleting a roll-up scope needs the value owner as well as the required parties -/
+example : (run {} [.write "s1" [req "A", opt "B"] true "B" ["A"], .delete "s1" ["A"]]).ledger.supply "s1" = 1 := by decide
+example : (run {} [.write "s1" [req "A", opt "B"] true "B" ["A"], .delete "s1" ["A", "B"]]).ledger.supply "s1" = 0 := by decide
+/-- optional parties are only allowed with `require_party_rollup` -/
+example : (applyOp {} (.write "s1" [req "A", opt "B"] false "B" ["A"])).2 = "err:invalid" := by decide
 /-- delete burns; a contract as first signer hides the other signers -/
-example : (run {} [.write "s1" ["A"] "C" ["A"], .delete "s1" ["A", "C"]]).ledger.supply "s1" = 0 := by decide
-example : holder (run {} [.write "s1" ["A"] "C" ["A"], .updvo ["s1"] "D" ["K", "C"]]) "s1" = some (some "C") := by decide
+example : (run {} [.write "s1" [req "A"] false "C" ["A"], .delete "s1" ["A", "C"]]).ledger.supply "s1" = 0 := by decide
+example : holder (run {} [.write "s1" [req "A"] false "C" ["A"], .updvo ["s1"] "D" ["K", "C"]]) "s1" = some (some "C") := by decide
 /-- `Inv` is not vacuous: a state with a live token satisfies it -/
-example : Inv (run {} [.write "s1" ["A"] "C" ["A"]]) := run_inv inv_init _
+example : Inv (run {} [.write "s1" [req "A"] false "C" ["A"]]) := run_inv inv_init _
 
 end Examples
 
